@@ -48,6 +48,8 @@ def run(ctx):
         engine.slice_sea(ctx, ctx.rng(83), ctx.size(400, 5000), only="C02/"),
         engine.slice_mwea(ctx, ctx.rng(87), ctx.size(150, 2000), only="C02/"),
         _level_boxes(ctx),
+        # an objective with NaN holes: NaN is a legal value, ordered as worst
+        runs.nan_monitor_batch(ctx, PID, ctx.size(30, 300), salt=73),
     ]
 
 
